@@ -175,7 +175,15 @@ def _mysql_worker(args):
     return acc.result()
 
 
-def _rdp_worker(_):
+def _named(members):
+    """Members by enumeration class and name: IntEnum members of two enumerations compare equal when their values do, a
+    response that comes back with the request's flag members has not recovered the encoded values."""
+    return sorted((type(x).__name__, getattr(x, 'name', repr(x))) for x in members)
+
+
+def _rdp_worker(order):
+    """order 0: requests before responses, 1: responses before requests (one fresh process each - what one PDU class
+    parsed must not colour how the other is read)."""
     acc = core.Acc()
     from cryptoparser.tls import rdp
     for ln in (0, 1, 255, 256, 65531):
@@ -193,14 +201,15 @@ def _rdp_worker(_):
                           {'kind': label, 'dst': dst, 'src': src})
     rq, rs = list(rdp.RDPNegotiationRequestFlags), list(rdp.RDPNegotiationResponseFlags)
     protos = [p for p in rdp.RDPProtocol if int(p)]
-    for cls, t, fl in ((rdp.RDPNegotiationRequest, 1, rq), (rdp.RDPNegotiationResponse, 2, rs)):
+    pdus = ((rdp.RDPNegotiationRequest, 1, rq), (rdp.RDPNegotiationResponse, 2, rs))
+    for cls, t, fl in (pdus if not order else pdus[::-1]):
         for k in range(len(fl) + 1):
             for fs in itertools.combinations(fl, k):
                 for j in range(len(protos) + 1):
                     for ps in itertools.combinations(protos, j):
                         wire = ref.rdp_negotiation(t, word(fs), word(ps))
                         both_ways(acc, cls, wire, lambda cls=cls, fs=fs, ps=ps: cls(set(fs), set(ps)), 'rdp_negotiation',
-                                  lambda o, fs=fs, ps=ps: None if (set(o.flags) == set(fs) and {p for p in o.protocol if int(p)} == set(ps)) else 'flags_protocols',
+                                  lambda o, fs=fs, ps=ps: None if (_named(o.flags) == _named(fs) and _named(p for p in o.protocol if int(p)) == _named(ps)) else 'flags_protocols',
                                   {'kind': 'rdp_negotiation', 'type': t})
     acc.sample({'kind': 'x224_confirm', 'wire': ref.x224_connection(0xd, 0x1234, 0xabcd, 0, b'')}, 1)
     return acc.result()
@@ -363,7 +372,7 @@ def _defaults_worker(i):
 
 def run(ctx):
     ctx.pmap(_mysql_worker, [(p, 16, True) for p in range(16)])
-    ctx.pmap(_rdp_worker, [0], nproc=1)
+    ctx.pmap(_rdp_worker, [0, 1], fresh=True)
     ctx.pmap(_defaults_worker, list(range(24)), fresh=True)
     ctx.pmap(_openvpn_worker, [(p, 16) for p in range(16)])
     ctx.pmap(_pg_ldap_worker, [0], nproc=1)
